@@ -6,6 +6,7 @@ CLI_BAG = {
     "api": '<<"api","api","api","reply","reply","reply","reply","sched","adv","adv","cancel","event","inv","release","intr">>',
     "time": '<<"api","api","reply","sched","sched","sched","adv","adv","adv","cancel","cancel","close">>',
     "inv": '<<"api","api","reply","reply","inv","inv","inv","intr","intr","release","release","adv","event","event">>',
+    "slowprog": '<<"api","api","reply","reply","reply","reply","slow","slow","cancel","adv","adv">>',
     "dupinv": '<<"api","api","reply","reply","inv","inv","dupinv","dupinv","intr","release","adv","event","event","event">>',
     "hostile": '<<"api","api","reply","reply","hostile","hostile","hostile","hostile","inv","event","adv","disc","close">>',
     "shutdown": '<<"api","api","api","reply","inv","cancel","sched","adv","disc","disc","close","close">>',
